@@ -11,12 +11,14 @@
    SAM/BAM agreement for EVERY record of the data model (any optional fields, any CIGAR length) by
    composition with the C05 BAM codec theorem.  The lazy sam::Record (NV.Sam.Lazy: field splitter,
    bounds, the accessors of the eleven mandatory columns with their panics) is modelled and tied to
-   the implementation; its theorems are at the end of this file. *)
+   the implementation; its theorems are at the end of this file.  Round 8 (end of file): noodles'
+   own output satisfies the text premises (arr_canon, wf_refs), Data::get, header write-then-read. *)
 From Coq Require Import List NArith ZArith Bool Lia.
 From NV Require Import Base.Decimal Base.DecimalProofs Sam.Fields Sam.FieldsProofs Sam.Record Sam.RecordProofs.
 From NV Require Import Sam.Header Sam.HeaderProofs Sam.HeaderWfProofs Sam.BamAgree.
 From NV Require Import Sam.BamHeader Sam.BamHeaderProofs Sam.Lazy Sam.LazyProofs Sam.LazyWritten.
 From NV Require Import Sam.LazyData Sam.LazyDataProofs Sam.File Sam.FileProofs Sam.FileAgree.
+From NV Require Import Sam.WrittenProofs Sam.LazyGet Sam.LazyGetProofs.
 From NV Require Bam.File Bam.FileProofs.
 From NV Require Bam.Record Bam.Encode Bam.Decode Bam.CodecProofs Bam.AuxProofs.
 Import ListNotations.
@@ -190,11 +192,33 @@ Theorem c06_header_parse_write_fixed : forall t h t' h',
 Proof. exact header_parse_write_fixed. Qed.
 Print Assumptions c06_header_parse_write_fixed.
 
-(* and the premise is needed: the comment "x\r" is accepted, written, and read back as "x" *)
-Theorem c06_header_comment_cr_refuted : exists t h t',
-  read_header t = Some h /\ write_header h = Some t' /\ read_header t' <> Some h.
-Proof. exact header_comment_cr_refuted. Qed.
-Print Assumptions c06_header_comment_cr_refuted.
+(* Since /repo 9bfd7d2 the header writer refuses a comment that contains LF or ends in CR, so the
+   comment part of wf_header follows from write_header succeeding: the parse -> write -> parse
+   theorems hold with NO premise besides the writer accepting the parsed header. *)
+Theorem c06_header_written_co_ok : forall h t, write_header h = Some t -> Forall co_ok (h_co h).
+Proof. exact write_header_co_ok. Qed.
+Print Assumptions c06_header_written_co_ok.
+
+Theorem c06_header_parse_write_parse_w : forall t h t',
+  read_header t = Some h -> write_header h = Some t' -> read_header t' = Some h.
+Proof. exact header_parse_write_parse_w. Qed.
+Print Assumptions c06_header_parse_write_parse_w.
+
+Theorem c06_header_parse_write_fixed_w : forall t h t' h',
+  read_header t = Some h -> write_header h = Some t' ->
+  read_header t' = Some h' -> write_header h' = Some t'.
+Proof. exact header_parse_write_fixed_w. Qed.
+Print Assumptions c06_header_parse_write_fixed_w.
+
+(* formerly c06_header_comment_cr_refuted (comment "x\r" accepted, written, read back as "x"):
+   a header with a comment that is not one line is now REJECTED by the writer *)
+Theorem c06_header_comment_cr_rejected : forall h, ~ Forall co_ok (h_co h) -> write_header h = None.
+Proof. exact header_comment_rejected. Qed.
+Print Assumptions c06_header_comment_cr_rejected.
+
+Example c06_header_comment_cr_witness : exists t h,
+  read_header t = Some h /\ h_co h = [[120; 13]] /\ write_header h = None.
+Proof. exact header_comment_cr_rejected. Qed.
 
 Definition c06_example_header : header :=
   mkHeader (Some (mkHd 1 6 [((83,79), [117;110;107])]))
@@ -523,3 +547,191 @@ Example c06_file_example :
   | None => None
   end = Some (c06_file_example_h, ([norm_rec c06_file_example_r; norm_rec c06_file_example_r], FEof)).
 Proof. vm_compute. reflexivity. Qed.
+
+(* ==== ROUND 8: what noodles' own writers guarantee, so the theorems about accepted text apply to
+   written text with no premise on the text.
+   (a) every optional field the record writer emits satisfies the digit premise arr_canon (array
+   elements are fmt_dec text: always a digit, never a comma), so for ANY valid record the lazy
+   sam::Record read from the written line, converted by RecordBuf::try_from_alignment_record, is
+   the record that was written (norm_rec: integer tags by value, the single score 9). *)
+Theorem c06_lazy_convert_written :
+  forall (fmt32 fmtd32 : N -> bytes) (parse32 : bytes -> option N) (parse32p : bytes -> option (N * bytes)),
+    (forall b, finite32 b = true -> parse32 (fmt32 b) = Some b) ->
+    (forall b, PR (fmt32 b)) ->
+    (forall b rest, finite32 b = true -> (rest = [] \/ exists r, rest = 44 :: r) ->
+                    parse32p (fmtd32 b ++ rest) = Some (b, rest)) ->
+    (forall b, PR (fmtd32 b)) ->
+    (forall f b rest, parse32 f = Some b -> NoTab f -> tail_ok rest -> parse32p (f ++ rest) = Some (b, rest)) ->
+    (forall s v rest, parse32p s = Some (v, rest) -> exists f, s = f ++ rest /\ parse32 f = Some v /\ NoComma f) ->
+    parse32 [] = None ->
+    forall refs r t, wf_refs refs -> wf_rec r ->
+      write_record fmt32 fmtd32 refs r = Some t ->
+      exists d', lazy_convert parse32 parse32p refs t = COk (set_data (strip_data (norm_rec r)) d')
+                 /\ map normf d' = r_data (norm_rec r).
+Proof. exact lazy_convert_written. Qed.
+Print Assumptions c06_lazy_convert_written.
+
+(* the premise itself, for every written line *)
+Theorem c06_written_arr_canon :
+  forall (fmt32 fmtd32 : N -> bytes) (parse32 : bytes -> option N) (parse32p : bytes -> option (N * bytes)),
+    (forall b, finite32 b = true -> parse32 (fmt32 b) = Some b) ->
+    (forall b, PR (fmt32 b)) ->
+    (forall b rest, finite32 b = true -> (rest = [] \/ exists r, rest = 44 :: r) ->
+                    parse32p (fmtd32 b ++ rest) = Some (b, rest)) ->
+    (forall b, PR (fmtd32 b)) ->
+    forall refs r t, wf_refs refs -> wf_rec r ->
+      write_record fmt32 fmtd32 refs r = Some t ->
+      forallb arr_canon (skipn 11 (split_tab (line_of t))) = true.
+Proof. exact written_arr_canon. Qed.
+Print Assumptions c06_written_arr_canon.
+
+(* (b) Data::get of the lazy record (NV.Sam.LazyGet.lazy_get: the loop over Data::iter): it is the
+   first field with that tag of the list the iteration yields; an iteration error is returned
+   unless a field with the tag comes first; it ends on any bytes.  On noodles' own line it never
+   errs, and the list it searches, converted field by field, is the written data. *)
+Theorem c06_lazy_get_iter : forall parse32p tag data l,
+  lazy_data parse32p data = DOk l -> lazy_get parse32p tag data = get_of_list tag l.
+Proof. exact lazy_get_iter. Qed.
+Print Assumptions c06_lazy_get_iter.
+
+Theorem c06_lazy_get_iter_err : forall parse32p tag data e,
+  lazy_data parse32p data = DErr e ->
+  lazy_get parse32p tag data = GErr e \/ exists v, lazy_get parse32p tag data = GOk v.
+Proof. exact lazy_get_iter_err. Qed.
+Print Assumptions c06_lazy_get_iter_err.
+
+Theorem c06_lazy_get_total : forall (parse32p : bytes -> option (N * bytes)),
+  (forall s v rest, parse32p s = Some (v, rest) -> (length rest <= length s)%nat) ->
+  forall tag data, lazy_get parse32p tag data <> GErr DFuel.
+Proof. exact lazy_get_total. Qed.
+Print Assumptions c06_lazy_get_total.
+
+Theorem c06_lazy_get_written :
+  forall (fmt32 fmtd32 : N -> bytes) (parse32 : bytes -> option N) (parse32p : bytes -> option (N * bytes)),
+    (forall b, finite32 b = true -> parse32 (fmt32 b) = Some b) ->
+    (forall b, PR (fmt32 b)) ->
+    (forall b rest, finite32 b = true -> (rest = [] \/ exists r, rest = 44 :: r) ->
+                    parse32p (fmtd32 b ++ rest) = Some (b, rest)) ->
+    (forall b, PR (fmtd32 b)) ->
+    (forall f b rest, parse32 f = Some b -> NoTab f -> tail_ok rest -> parse32p (f ++ rest) = Some (b, rest)) ->
+    (forall s v rest, parse32p s = Some (v, rest) -> exists f, s = f ++ rest /\ parse32 f = Some v /\ NoComma f) ->
+    parse32 [] = None ->
+    forall refs r t, wf_refs refs -> wf_rec r ->
+      write_record fmt32 fmtd32 refs r = Some t ->
+      exists data l d', lazy_view refs t = LOk (strip_data (norm_rec r)) data
+                        /\ lazy_data parse32p data = DOk l
+                        /\ conv_list parse32 l [] = Some d' /\ map normf d' = r_data (norm_rec r)
+                        /\ forall tag, lazy_get parse32p tag data = get_of_list tag l.
+Proof. exact lazy_get_written. Qed.
+Print Assumptions c06_lazy_get_written.
+
+Example c06_lazy_get_example :
+  lazy_get (fun _ => None) (88, 65) [78;77;58;105;58;49;9;88;65;58;66;58;67;44;49;44;50;9;88;66;58;90;58;97;32;98]
+  = GOk (LArrI U8 [49;44;50])
+  /\ lazy_get (fun _ => None) (88, 67) [78;77;58;105;58;49;9;88;65;58;66;58;67;44;49;44;50] = GNone
+  /\ (* an error after the field that is asked for is not seen; before it, it is the result *)
+  lazy_get (fun _ => None) (78, 77) [78;77;58;105;58;49;9;88;65;58;105;58;120] = GOk (LI32 1%Z)
+  /\ lazy_get (fun _ => None) (88, 66) [78;77;58;105;58;49;9;88;65;58;105;58;120;9;88;66;58;105;58;50] = GErr DInv.
+Proof. repeat split; vm_compute; reflexivity. Qed.
+
+(* (c) the reference dictionary of a header the header writer accepts satisfies wf_refs:
+   is_valid_name (rname_valid) gives the name grammar, the IndexMap keys (wf_header) uniqueness;
+   so the file theorems hold without the wf_refs premise. *)
+Theorem c06_written_refs_wf : forall h t, wf_header h -> write_header h = Some t -> wf_refs (refs_of h).
+Proof. exact wf_refs_written. Qed.
+Print Assumptions c06_written_refs_wf.
+
+Theorem c06_file_roundtrip_written :
+  forall (fmt32 fmtd32 : N -> bytes) (parse32 : bytes -> option N) (parse32p : bytes -> option (N * bytes)),
+    (forall b, finite32 b = true -> parse32 (fmt32 b) = Some b) ->
+    (forall b, PR (fmt32 b)) ->
+    (forall b rest, finite32 b = true -> (rest = [] \/ exists r, rest = 44 :: r) ->
+                    parse32p (fmtd32 b ++ rest) = Some (b, rest)) ->
+    (forall b, PR (fmtd32 b)) ->
+    forall h rs t,
+      wf_header h -> Forall wf_rec rs ->
+      Sam.File.write_file fmt32 fmtd32 h rs = Some t ->
+      Sam.File.read_file parse32 parse32p t = Some (h, (map norm_rec rs, FEof)).
+Proof. exact file_roundtrip_written. Qed.
+Print Assumptions c06_file_roundtrip_written.
+
+Theorem c06_file_sam_bam_agree_written :
+  forall (fmt32 fmtd32 : N -> bytes) (parse32 : bytes -> option N) (parse32p : bytes -> option (N * bytes)),
+    (forall b, finite32 b = true -> parse32 (fmt32 b) = Some b) ->
+    (forall b, PR (fmt32 b)) ->
+    (forall b rest, finite32 b = true -> (rest = [] \/ exists r, rest = 44 :: r) ->
+                    parse32p (fmtd32 b ++ rest) = Some (b, rest)) ->
+    (forall b, PR (fmtd32 b)) ->
+    forall h rs t bs,
+      wf_header h ->
+      Forall wf_rec rs -> Forall wf_bits rs -> Forall (fun r => r_qual r <> [9]) rs ->
+      Sam.File.write_file fmt32 fmtd32 h rs = Some t ->
+      Bam.File.write_file h (map to_bam_d rs) = Bam.Record.Ok bs ->
+      exists rs_s rs_b,
+        Sam.File.read_file parse32 parse32p t = Some (h, (rs_s, FEof)) /\
+        Bam.File.read_file bs = Bam.Record.Ok (h, (rs_b, Bam.File.EndEof)) /\
+        map (fun r => Bam.CodecProofs.norm (to_bam_d r)) rs_s = map by_value rs_b.
+Proof. exact file_sam_bam_agree_written. Qed.
+Print Assumptions c06_file_sam_bam_agree_written.
+
+(* (d) write-then-read of a header as one observable (header_write_read, compared with the
+   implementation by the hco cases): the identity under the TYPE-level part of wf_header only
+   (wf_header_ty: IndexMap keys, NonZero, u32 -- the comment conjunct follows from the writer's
+   check since /repo 9bfd7d2); the same for the header and file theorems. *)
+Theorem c06_header_write_read : forall h t, wf_header_ty h -> write_header h = Some t ->
+  header_write_read h = Some (t, Some h).
+Proof. exact header_write_read_ty. Qed.
+Print Assumptions c06_header_write_read.
+
+Theorem c06_header_roundtrip : forall h t, wf_header_ty h -> write_header h = Some t -> read_header t = Some h.
+Proof. exact header_roundtrip_ty. Qed.
+Print Assumptions c06_header_roundtrip.
+
+Theorem c06_file_roundtrip_ty :
+  forall (fmt32 fmtd32 : N -> bytes) (parse32 : bytes -> option N) (parse32p : bytes -> option (N * bytes)),
+    (forall b, finite32 b = true -> parse32 (fmt32 b) = Some b) ->
+    (forall b, PR (fmt32 b)) ->
+    (forall b rest, finite32 b = true -> (rest = [] \/ exists r, rest = 44 :: r) ->
+                    parse32p (fmtd32 b ++ rest) = Some (b, rest)) ->
+    (forall b, PR (fmtd32 b)) ->
+    forall h rs t,
+      wf_header_ty h -> Forall wf_rec rs ->
+      Sam.File.write_file fmt32 fmtd32 h rs = Some t ->
+      Sam.File.read_file parse32 parse32p t = Some (h, (map norm_rec rs, FEof)).
+Proof. exact file_roundtrip_ty. Qed.
+Print Assumptions c06_file_roundtrip_ty.
+
+Theorem c06_file_sam_bam_agree_ty :
+  forall (fmt32 fmtd32 : N -> bytes) (parse32 : bytes -> option N) (parse32p : bytes -> option (N * bytes)),
+    (forall b, finite32 b = true -> parse32 (fmt32 b) = Some b) ->
+    (forall b, PR (fmt32 b)) ->
+    (forall b rest, finite32 b = true -> (rest = [] \/ exists r, rest = 44 :: r) ->
+                    parse32p (fmtd32 b ++ rest) = Some (b, rest)) ->
+    (forall b, PR (fmtd32 b)) ->
+    forall h rs t bs,
+      wf_header_ty h ->
+      Forall wf_rec rs -> Forall wf_bits rs -> Forall (fun r => r_qual r <> [9]) rs ->
+      Sam.File.write_file fmt32 fmtd32 h rs = Some t ->
+      Bam.File.write_file h (map to_bam_d rs) = Bam.Record.Ok bs ->
+      exists rs_s rs_b,
+        Sam.File.read_file parse32 parse32p t = Some (h, (rs_s, FEof)) /\
+        Bam.File.read_file bs = Bam.Record.Ok (h, (rs_b, Bam.File.EndEof)) /\
+        map (fun r => Bam.CodecProofs.norm (to_bam_d r)) rs_s = map by_value rs_b.
+Proof. exact file_sam_bam_agree_ty. Qed.
+Print Assumptions c06_file_sam_bam_agree_ty.
+
+(* formerly c06_header_comment_lf_refuted (`a LF b` read back as `a` in SAM and refused in BAM;
+   `a LF @SQ..` injected a reference sequence; finding sam-header-comment-line-break-unvalidated,
+   fixed in /repo 9bfd7d2): a comment containing a line feed is now REJECTED by both writers *)
+Theorem c06_header_comment_lf_rejected : forall h c, In c (h_co h) -> In 10 c ->
+  write_header h = None /\ header_write_read h = None /\ write_bam_header h = None.
+Proof. exact header_comment_lf_rejected. Qed.
+Print Assumptions c06_header_comment_lf_rejected.
+
+Example c06_header_comment_lf_witnesses :
+  header_write_read (mkHeader None [] [] [] [[97; 10; 98]]) = None
+  /\ header_write_read (mkHeader None [] [] [] [[97; 10; 64; 83; 81; 9; 83; 78; 58; 120; 9; 76; 78; 58; 53]]) = None
+  /\ header_write_read (mkHeader None [] [] [] [[97; 13]]) = None
+  /\ header_write_read (mkHeader None [] [] [] [[97; 13; 98]])
+  = Some ([64; 67; 79; 9; 97; 13; 98; 10], Some (mkHeader None [] [] [] [[97; 13; 98]])).
+Proof. exact header_comment_lf_witnesses. Qed.
